@@ -211,6 +211,9 @@ func (m *machine) op(op string) string {
 	if r < 0 || r > 3 {
 		return "?"
 	}
+	if it, ok := m.op5(op); ok { // round 5: y, t, z (round5.go)
+		return it
+	}
 	switch op[0] {
 	case 'K':
 		if len(op) < 4 {
@@ -1015,6 +1018,8 @@ func main() {
 				}
 				x.emit("n", b, shape, ops, "deep-vine-"+pat, "beta-1000")
 			}
+			// 3b. round 5: a cursor used inside its own Inorder, traversals alive together (round5.go)
+			x.round5()
 			// 4. big trees (B lines): grow, shrink to 1/2, 1/4, 1/8, 1/16 of the peak, regrow; probe EVERY key
 			// after every stage; explicit walks from the deepest keys and from keys whose path is 2^k long
 			x.bigTrees()
